@@ -40,8 +40,8 @@ let srvc inp impl =
   | [send; chunks; script] ->
     let cs = chunks_of chunks in
     let sc = if script = "-" then [||] else Array.of_list (String.split_on_char ',' script) in
-    let evs = server_run_c (script_handler sc) 0 (send_of send) cs in
-    let flat = server_run (script_handler sc) 0 (send_of send) (List.concat cs) in
+    let evs = server_run_c (sh_handler (script_of_tokens sc)) O (send_of send) cs in
+    let flat = server_run (sh_handler (script_of_tokens sc)) O (send_of send) (List.concat cs) in
     let m = String.concat ";" (List.map event_str evs) in
     if evs <> flat then (m ^ " chunked-and-flat-model-differ", "0")
     else (m, if m = impl then "1" else "0")
